@@ -17,7 +17,7 @@ Open Scope N_scope.
    not forwarded, metadata with @setDataFrame only towards push targets
    ([unit_of]), and it is still admitted, so the run goes on. *)
 Theorem c01_contiguous : forall cf h0 h id c,
-  find_sub (run cf h0) id = Some c -> admitted c = true -> c_kind c <> KTs ->
+  find_sub (run cf h0) id = Some c -> admitted c = true -> c_kind c <> KTs -> c_kind c <> KRtsp ->
   attached id (c_kind c) h ->
   exists c', find_sub (run cf (h0 ++ h)) id = Some c' /\ c_kind c' = c_kind c /\ admitted c' = true /\
              vout (run cf (h0 ++ h)) c' = vout (run cf h0) c ++ units (c_kind c) (g_next (run cf h0)) h.
@@ -28,7 +28,7 @@ Print Assumptions c01_contiguous.
    gets exactly the unit of the published message (nothing for other events). *)
 Theorem c01_step : forall cf s e id c,
   merge_inv cf s ->
-  find_sub s id = Some c -> admitted c = true -> c_kind c <> KTs -> stays e c ->
+  find_sub s id = Some c -> admitted c = true -> c_kind c <> KTs -> c_kind c <> KRtsp -> stays e c ->
   exists c', find_sub (step cf s e) id = Some c' /\ c_kind c' = c_kind c /\ admitted c' = true /\
              vout (step cf s e) c' = vout s c ++ live_units s e (c_kind c).
 Proof. exact step_admitted. Qed.
@@ -106,7 +106,8 @@ Print Assumptions c01_decodes_flv.
    are admitted and then receive two more messages *)
 Definition ex_cfg : cfg :=
   {| cf_rtmp_enable := true; cf_rtmp_gop := 1; cf_rtmp_max := 0; cf_flv_enable := true; cf_flv_gop := 1; cf_flv_max := 0;
-     cf_ts_gop := 0; cf_ts_max := 0; cf_merge := 100; cf_record_flv := true; cf_chunk := 4096; cf_ext_at_limit := false |}.
+     cf_ts_gop := 0; cf_ts_max := 0; cf_merge := 100; cf_record_flv := true; cf_chunk := 4096; cf_ext_at_limit := false;
+     cf_rtsp_wait := true; cf_hook := true; cf_record_ts := true |}.
 Definition ex_msg (b0 b1 : N) (ts : N) : rmsg := {| rm_type := 9; rm_ts := ts; rm_payload := [b0; b1; 0; 0; 0; 1] |}.
 Definition ex_h0 : list ev :=
   [EvInStart; EvJoin KRtmp 1; EvJoin KFlv 2; EvJoin KPush 3; EvPublish (ex_msg 23 0 0); EvPublish (ex_msg 23 1 0)].
